@@ -830,7 +830,11 @@ def shrink_shell_json(sj):
         t = dict(sj)
         t["coeffs"] = [["1" for _ in row] for row in sj["coeffs"]]
         out.append(t)
-    return out
+    # never shrink to the zero function: every coefficient column keeps a non-zero entry
+    def _ok(t):
+        cols = list(zip(*t["coeffs"]))
+        return all(any(Fraction(c) != 0 for c in col) for col in cols)
+    return [t for t in out if _ok(t)]
 
 
 # ----------------------------------------------------------------------------------------------
